@@ -39,6 +39,49 @@ def validate_trace(ctx, trace, regs, name, tagmap=None, pid="C03"):
     res = json.loads(json.loads(s))
     return res
 
+def repo_suite_traces(ctx):
+    """code -> spec over executions nobody generated: the repository's own root-package tests, run with the verif
+    tag and UGO_VERIF_TRACE, validated against the same invariants (finds violations the tests' assertions cannot see;
+    on the unchanged tree it is the standing false-alarm test of the invariants)."""
+    import subprocess, glob
+    prefix = ctx.path("suite")
+    env = dict(vlib.GOENV, UGO_VERIF_TRACE=prefix)
+    p = subprocess.run(["go", "test", "-tags", "verif", "-vet=off", "-count=1", "-timeout", "20m", "."], cwd=vlib.REPO, env=env,
+                       stdout=subprocess.PIPE, stderr=subprocess.STDOUT, text=True)
+    files = glob.glob(prefix + ".*.ndjson")
+    if not files:
+        ctx.drift.append(dict(what="repository suite produced no trace (tests rc=%d)" % p.returncode))
+        return
+    regs, nfn = [], 0
+    trace = ctx.path("suite-trace.ndjson")
+    tag = 0
+    with open(trace, "w") as out:
+        for f in files:
+            for line in open(f):
+                e = json.loads(line)
+                if e["ev"] == "fn":
+                    while len(regs) < e["fn"]:
+                        regs.append([])
+                    regs[e["fn"] - 1] = e["regs"]
+                    continue
+                if e["ev"] == "run.enter":
+                    tag += 1
+                if e["ev"] in ("run.enter", "run.exit", "throw"):
+                    e["tag"] = tag
+                    e.setdefault("kind", "")
+                out.write(json.dumps(e) + "\n")
+            os.remove(f)
+    rp = ctx.path("suite-regs.json")
+    json.dump(regs, open(rp, "w"))
+    tv = validate_trace(ctx, trace, rp, "trace-repo-suite")
+    ctx.cov["repo_suite_trace_events"] = tv["events"]
+    ctx.cov["repo_suite_runs"] = tag
+    for b in tv["bad"]:
+        ctx.violation("suite-trace:" + vlib.sha(b["why"] + str(b["tag"])),
+                      "a VM run of the repository's own test suite violates a C03 invariant: %s (run %d, event %d)" % (b["why"], b["tag"], b["at"]),
+                      dict(kind="suite", why=b["why"], run=b["tag"]))
+    ctx.traces_validated += tag
+
 def run(ctx):
     quick = ctx.quick
     out = ctx.path("try.ndjson")
@@ -79,6 +122,8 @@ def run(ctx):
                       dict(kind="try", src=r.get("src"), why=b["why"]))
     for d in tv["drift"]:
         ctx.drift.append(dict(trace_tag=d["tag"], why=d["why"]))
+    if not quick:
+        repo_suite_traces(ctx)
     ctx.assumptions += ["renderer harness/cmd/vh/c03.go maps AST to uGO source faithfully",
                         "reference semantics XB/XS of UgoTry.tla is the documented meaning (docs/error-handling.md)"]
 
